@@ -8,7 +8,7 @@ import c02_gen as G
 
 ID = "C02"
 THEOREMS = "Properties/C02.v"
-HARNESS = ["c02"]
+HARNESS = ["c02", "c02s", "c16"]
 LEVEL = "proof"
 READY = True
 TRUSTED_BASE = [
@@ -68,6 +68,13 @@ def search(ctx, info, sysd, broken, log, n, steps):
         err = err or e1
     if err:
         ctx.notes.append("differential walk of %s: %s" % (sysd["name"], err[:300]))
+    if broken:
+        # reachable states of the seed corpus that stand at a broken label, every small choice vector
+        nsc, m2, note = G.scan_seeds(info, focus, log)
+        cover["#seed_states_scanned"] = nsc
+        if note:
+            ctx.notes.append(note)
+        mm = m2 + mm
     seen = set()
     for m in mm:
         lid = "%s.%s.%s" % (sysd["name"], m.get("process"), m.get("label"))
@@ -83,6 +90,7 @@ def search(ctx, info, sysd, broken, log, n, steps):
                 lid, " (its obligation no longer checks)" if lid in broken else ""),
             "case": {"system": sysd["name"], "go": sysd["go"], "tla": sysd["tla"], "rnd": m["rnd"], "steps": m["steps"], "focus": m.get("focus", []),
                      "process": m.get("process"), "label": m.get("label"), "self": m.get("self"), "schedule": m.get("sched"),
+                     "seed": m.get("seed"), "init_rnd": m.get("init_rnd"), "cset": m.get("cset"),
                      "choices": m.get("choices"), "pre_state": m.get("state")},
             "obs": {"go_model": m.get("go"), "real_go": real},
             "exp": {"tla_model": m.get("tla")}})
@@ -174,6 +182,37 @@ def run(ctx):
             for i in range(ncmp):
                 ctx.add_case("real-go locksvc %d %d" % (ctx.seed, i), False)
         per_system[sysd["name"]] = st
+    # tie A validated by B on further systems: real generated archetypes driven through harness/steplib
+    if not ctx.replay:
+        plan = [("dqueue", 0, 3, 40), ("pbkvs", 0, 1, 50), ("pbkvs", 1, 1, 50), ("raftkvs", 0, 2, 50)] if ctx.tier == "quick" else \
+               [("dqueue", 0, 12, 60), ("pbkvs", 0, 8, 80), ("pbkvs", 1, 8, 80), ("raftkvs", 0, 10, 80),
+                ("shcounter", 0, 6, 30), ("loadbalancer", 0, 8, 60)]
+        seeds_ = [ctx.rng.randrange(1 << 30) for _ in plan]
+        import random as _random
+        def real_one(job):
+            (nm, cs, ns, nst), sd = job
+            if only and nm not in only.split(","):
+                return nm, cs, None
+            inf = [i for s_, i in zip(systems, infos) if s_["name"] == nm]
+            sd_ = [s_ for s_ in systems if s_["name"] == nm]
+            if not inf or inf[0]["errors"]:
+                return nm, cs, None
+            return nm, cs, G.real_go_steplib(inf[0], sd_[0], cs, ns, nst, _random.Random(sd), log)
+        with ThreadPoolExecutor(max_workers=4) as ex:
+            outs = list(ex.map(real_one, zip(plan, seeds_)))
+        for nm, cs, r in outs:
+            if r is None:
+                continue
+            ncmp, ncommit, mm, err = r
+            per_system[nm].setdefault("real_go_validation", []).append(
+                {"constant_set": cs, "attempts_compared": ncmp, "committed": ncommit, "mismatches": len(mm), "error": err})
+            if err:
+                ctx.breaks.append({"what": "C02 %s: validation against the real generated Go did not run: %s" % (nm, err[:200]), "detail": err})
+            for m in mm[:2]:
+                ctx.breaks.append({"what": "C02 %s: the regenerated Go model of %s.%s does not predict what the real generated Go did" % (nm, m.get("process"), m.get("label")),
+                                   "case": m, "impl": m.get("real"), "model": m.get("gomodel")})
+            for i in range(ncmp):
+                ctx.add_case("real-go %s %d %d %d" % (nm, cs, ctx.seed, i), False)
     ctx.extra["excluded_pairs"] = [{"pair": e["go"], "reason": e["reason"]} for e in G.EXCLUDED]
     if ctx.tier == "thorough" and not ctx.replay:
         for e in G.EXCLUDED:
